@@ -504,6 +504,9 @@ func (s *Server) serveConn(conn net.Conn) {
 				s.HandleServiceError(err)
 			}
 
+			// rejected: the request is not processed any further
+			atomic.AddInt32(&s.handlerMsgNum, -1)
+
 			// auth failed, closed the connection
 			if closeConn {
 				log.Infof("auth failed for conn %s: %v", conn.RemoteAddr().String(), err)
@@ -537,7 +540,7 @@ func (s *Server) processOneRequest(ctx *share.Context, req *protocol.Message, co
 		}
 	}()
 
-	atomic.AddInt32(&s.handlerMsgNum, 1)
+	// the request was counted as in progress when it was read (readRequest)
 	defer atomic.AddInt32(&s.handlerMsgNum, -1)
 
 	// 心跳请求，直接处理返回
@@ -666,9 +669,17 @@ func (s *Server) readRequest(ctx context.Context, r io.Reader) (req *protocol.Me
 	if err == io.EOF {
 		return req, err
 	}
+	if err == nil {
+		// count the request as in progress from the moment it has been read, so that a
+		// graceful Shutdown waits for it while it is still queued or not yet scheduled
+		atomic.AddInt32(&s.handlerMsgNum, 1)
+	}
 	perr := s.Plugins.DoPostReadRequest(ctx, req, err)
 	if err == nil {
 		err = perr
+		if err != nil { // rejected by a plugin: it will not be processed
+			atomic.AddInt32(&s.handlerMsgNum, -1)
+		}
 	}
 	return req, err
 }
